@@ -113,11 +113,12 @@ where
 
 /// Modular inversion for 64-bit moduli.
 pub fn inv_mod64(n: u64, p: u64) -> Option<u64> {
-    let e = Integer::extended_gcd(&(n as i64), &(p as i64));
+    // The extended GCD runs on i128: operands above 2^63 are not representable as i64.
+    let e = Integer::extended_gcd(&(n as i128), &(p as i128));
     if e.gcd == 1 {
-        let x = if e.x < 0 { e.x + p as i64 } else { e.x };
+        let x = if e.x < 0 { e.x + p as i128 } else { e.x };
         assert!(x >= 0);
-        Some(x as u64 % p)
+        Some((x as u128 % p as u128) as u64)
     } else {
         None
     }
